@@ -77,7 +77,7 @@ theorem extract_inject_id (c : ICfg) (aud : Nat → Bytes) (pres : Nat → Nat) 
     rw [hlab] at this; simpa using this
   have hr : ∀ fr ∈ frames (keepAud c items), pres fr.1 < rpus.length := by
     intro fr h; rw [hlen]; exact perm_range_lt pres n hperm _ (hfr fr h)
-  rw [inject_matched c aud pres n rpus items hd hn hi hr hb] at hout
+  rw [inject_matched_frames c aud pres n rpus items hd hn hi hfr hr hb] at hout
   simp only [Option.some.injEq] at hout
   -- the RPUs of the injected stream, decode order
   let rs : List Bytes := (List.range n).map (fun k => (rpus.getD (pres k) []).drop 2)
